@@ -179,6 +179,86 @@ def indicesSelectedMonths (c T : Nat) (months : List Nat) : Res (List Nat) :=
     indicesSelectedPhases c T (months.flatMap fun m => (List.range 30).map fun d => m * 30 + d)
   else .notImplemented
 
+/-! ### the loops as written (`np.zeros` + one row assignment per phase) -/
+
+def Res.bind {α β : Type} : Res α → (α → Res β) → Res β
+  | .ok a, f => f a
+  | .valueError, _ => .valueError
+  | .zeroDivision, _ => .zeroDivision
+  | .indexError, _ => .indexError
+  | .notImplemented, _ => .notImplemented
+
+/-- `np.arange(start, stop, step)` on integers (`step > 0`): NumPy computes the
+length `⌈(stop - start) / step⌉` (0 if negative) and fills `start + k * step` -/
+def arange (start stop step : Nat) : List Nat :=
+  (List.range ((stop - start + step - 1) / step)).map fun k => start + k * step
+
+/-- `M[i, :] = row` for a matrix with rows of length `w`: NumPy broadcasting accepts
+a row of length `w` or of length 1, anything else is a `ValueError` -/
+def rowAssign (w : Nat) (M : List (List Nat)) (i : Nat) (row : List Nat) : Res (List (List Nat)) :=
+  if row.length = w then .ok (M.set i row)
+  else match row with
+    | [x] => .ok (M.set i (List.replicate w x))
+    | _ => .valueError
+
+/-- `phase_indices()` as written: `range_years = int(T / c)` (`ZeroDivisionError` for
+`c = 0`), `phase_indices = np.zeros((c, range_years), dtype=int)`, then
+`for i in range(c): phase_indices[i, :] = np.arange(i, range_years * c, c)` -/
+def phaseIndicesLoop (c T : Nat) : Res (List (List Nat)) :=
+  if c = 0 then .zeroDivision
+  else
+    let ry := T / c
+    (List.range c).foldl
+      (fun acc i => acc.bind fun M => rowAssign ry M i (arange i (ry * c) c))
+      (.ok (List.replicate c (List.replicate ry 0)))
+
+/-- `phase_mean()` as written: `phase_mean = np.zeros((c, N))`, then
+`for i in range(c): phase_mean[i, :] = observable[i::c, :].mean(axis=0)` -/
+def phaseMeanLoop (c n : Nat) (obs : Mat) : List (Option Vec) :=
+  (List.range c).foldl (fun M i => M.set i (colMean n (everyNth c i obs)))
+    (List.replicate c (some (zeros n)))
+
+/-- NumPy normalisation of one (possibly negative) index along an axis of length `n`:
+valid iff `-n ≤ p < n`; negative indices count from the end -/
+def normIndex (n : Nat) (p : Int) : Option Nat :=
+  if 0 ≤ p then (if p < (n : Int) then some p.toNat else none)
+  else if -(n : Int) ≤ p then some (p + (n : Int)).toNat else none
+
+/-- normalisation of a whole index list (`none` = `IndexError`) -/
+def normAll (n : Nat) : List Int → Option (List Nat)
+  | [] => some []
+  | p :: ps =>
+    match normIndex n p, normAll n ps with
+    | some q, some qs => some (q :: qs)
+    | _, _ => none
+
+/-- `indices_selected_phases(sel)` for arbitrary integer phase numbers:
+`phase_indices()[sel, :]` (fancy index with wrap-around of negative numbers,
+`IndexError` outside `[-c, c)`), flattened and sorted -/
+def indicesSelectedPhasesI (c T : Nat) (sel : List Int) : Res (List Nat) :=
+  (phaseIndicesLoop c T).bind fun pi =>
+    match normAll c sel with
+    | none => .indexError
+    | some ps => .ok (sortNat ((ps.map fun p => pi.getD p []).flatten))
+
+/-- the loop of `indices_selected_months` for `time_cycle = 360`:
+`for month in selected_months: for day in range(30): selected_days.append(month * 30 + day)` -/
+def monthDays (months : List Int) : List Int :=
+  months.foldl (fun acc m => (List.range 30).foldl (fun acc d => acc ++ [m * 30 + Int.ofNat d]) acc) []
+
+/-- `indices_selected_months(months)` for arbitrary integer month numbers -/
+def indicesSelectedMonthsI (c T : Nat) (months : List Int) : Res (List Nat) :=
+  if c = 12 then indicesSelectedPhasesI c T months
+  else if c = 360 then indicesSelectedPhasesI c T (monthDays months)
+  else .notImplemented
+
+/-- `shuffled_anomaly()`: column `j` of `anomaly()` rearranged by the permutation
+`random.shuffle` applied to it (`perms[j][k]` = old position of the entry now at `k`);
+the result array is `np.empty(anomaly().shape)` filled column by column -/
+def shuffledAnomaly (A : Mat) (n : Nat) (perms : List (List Nat)) : Mat :=
+  (List.range A.length).map fun k =>
+    (List.range n).map fun j => (A.getD ((perms.getD j []).getD k 0) []).getD j 0
+
 /-! ### the object: window state machine and `_mut_window`-keyed memoisation -/
 
 structure Obj where
@@ -193,6 +273,8 @@ structure Obj where
   pmCache : List (Nat × List (Option Vec))
   /-- `lru_cache` entries of `anomaly` -/
   anCache : List (Nat × Mat)
+  /-- ghost field (not in the code): the last window that was accepted -/
+  win : Win
 deriving Repr
 
 /-- number of columns `observable.shape[1]` of the current view -/
@@ -204,7 +286,7 @@ Returns `(raised?, new object)`. -/
 def Obj.setWindow (o : Obj) (w : Win) : Bool × Obj :=
   match applyWindow o.full w with
   | none => (true, o)
-  | some v => (false, { o with cur := v, ver := o.ver + 1 })
+  | some v => (false, { o with cur := v, ver := o.ver + 1, win := w })
 
 /-- `ClimateData.set_global_window`: `Data.set_global_window(self)` dispatches to
 `self.set_window(global_window)` (first bump), then bumps again -/
@@ -214,7 +296,7 @@ def Obj.setGlobal (o : Obj) : Bool × Obj :=
   | (false, o') => (false, { o' with ver := o'.ver + 1 })
 
 /-- uncached bodies -/
-def Obj.phaseMeanFresh (o : Obj) : List (Option Vec) := phaseMean o.cycle o.ncols o.cur.obs
+def Obj.phaseMeanFresh (o : Obj) : List (Option Vec) := phaseMeanLoop o.cycle o.ncols o.cur.obs
 def Obj.anomalyFresh (o : Obj) : Mat :=
   if o.anom then o.cur.obs else anomalyOf o.cycle o.ncols o.cur.obs
 
@@ -236,23 +318,6 @@ def Obj.evict (o : Obj) (keep : Nat → Bool) : Obj :=
   { o with pmCache := o.pmCache.filter (fun e => keep e.1),
            anCache := o.anCache.filter (fun e => keep e.1) }
 
-/-- operations of a history -/
-inductive Op where
-  | setWindow (w : Win)
-  | setGlobal
-  | qPhaseMean
-  | qAnomaly
-  | evict (keep : Nat → Bool)
-
-def Obj.step (o : Obj) : Op → Obj
-  | .setWindow w => (o.setWindow w).2
-  | .setGlobal => o.setGlobal.2
-  | .qPhaseMean => o.phaseMeanQ.2
-  | .qAnomaly => o.anomalyQ.2
-  | .evict keep => o.evict keep
-
-def Obj.run (o : Obj) (ops : List Op) : Obj := ops.foldl Obj.step o
-
 /-- constructor: `ClimateData(observable, grid, time_cycle, anomalies, window)`.
 `window = none`: `Data.set_global_window(self)` → `self.set_window` (one bump);
 `window = some w`: `Data.set_window(self, w)` directly (no bump).
@@ -260,10 +325,51 @@ def Obj.run (o : Obj) (ops : List Op) : Obj := ops.foldl Obj.step o
 def Obj.init (full : View) (c : Nat) (anom : Bool) (w : Option Win) : Option Obj :=
   match applyWindow full (w.getD globalWin) with
   | none => none
-  | some v => some ⟨full, v, c, anom, if w.isNone then 1 else 0, [], []⟩
+  | some v => some ⟨full, v, c, anom, if w.isNone then 1 else 0, [], [], w.getD globalWin⟩
 
 /-- `anomaly_selected_months(months)` = `anomaly()[indices, :]` -/
 def selectRows (A : Mat) (idx : List Nat) : Res Mat :=
   if idx.all (· < A.length) then .ok (idx.map fun t => A.getD t []) else .indexError
+
+/-- `obj.set_window(obj.window())`: the dictionary returned by the library is fed back -/
+def Obj.setWindowCurrent (o : Obj) : Bool × Obj :=
+  match boundaries o.cur with
+  | some [a, b, c, d, e, f] => o.setWindow ⟨a, b, c, d, e, f⟩
+  | _ => (true, o)
+
+/-- `anomaly_selected_months(months)` = `anomaly()[indices_selected_months(months), :]`
+(the index computation comes first; `anomaly()` goes through the cache) -/
+def Obj.anomalySelectedMonths (o : Obj) (months : List Int) : Res Mat × Obj :=
+  match indicesSelectedMonthsI o.cycle o.cur.time.length months with
+  | .ok idx => let (A, o') := o.anomalyQ; (selectRows A idx, o')
+  | .valueError => (.valueError, o)
+  | .zeroDivision => (.zeroDivision, o)
+  | .indexError => (.indexError, o)
+  | .notImplemented => (.notImplemented, o)
+
+/-- operations of a history -/
+inductive Op where
+  | setWindow (w : Win)
+  | setGlobal
+  | qPhaseMean
+  | qAnomaly
+  | evict (keep : Nat → Bool)
+  | setWindowCurrent
+  | qSelectedMonths (months : List Int)
+
+def Obj.step (o : Obj) : Op → Obj
+  | .setWindow w => (o.setWindow w).2
+  | .setGlobal => o.setGlobal.2
+  | .qPhaseMean => o.phaseMeanQ.2
+  | .qAnomaly => o.anomalyQ.2
+  | .evict keep => o.evict keep
+  | .setWindowCurrent => o.setWindowCurrent.2
+  | .qSelectedMonths months => (o.anomalySelectedMonths months).2
+
+def Obj.run (o : Obj) (ops : List Op) : Obj := ops.foldl Obj.step o
+
+/-- `ClimateData(obj.observable(), obj.grid, c, anomalies)`: a new object on the
+arrays the library holds for the current window -/
+def Obj.nest (o : Obj) : Option Obj := Obj.init o.cur o.cycle o.anom none
 
 end Pyunicorn.Window
